@@ -501,7 +501,76 @@ func svAbandon(a []string) string {
 	return "ok"
 }
 
+// sv.closepending <calls>: a client has several calls in flight (the first keeps the object busy, the others wait
+// behind it) and closes its own end of the connection: every one of those calls returns, once, with an error.
+func svClosePending(a []string) string {
+	log.SetOutput(ioutil.Discard)
+	calls, _ := strconv.Atoi(a[0])
+	l := &auListener{ch: make(chan qnet.Stream), closed: make(chan struct{})}
+	srv, err := bus.StandAloneServer(l, bus.Yes{}, bus.PrivateNamespace())
+	if err != nil {
+		return "setup-error:" + err.Error()
+	}
+	defer srv.Terminate()
+	impl := &abandonImpl{seen: map[string]int{}, entered: make(chan struct{}), gate: make(chan struct{})}
+	defer close(impl.gate)
+	if _, err := srv.NewService("PingPong", pong.PingPongObject(impl)); err != nil {
+		return "setup-error:" + err.Error()
+	}
+	x, y := gonet.Pipe()
+	l.ch <- qnet.ConnStream(y)
+	ep := qnet.NewEndPoint(qnet.ConnStream(x))
+	if err := bus.AuthenticateUser(ep, "", ""); err != nil {
+		return "setup-error:" + err.Error()
+	}
+	cl := bus.NewClient(bus.NewContext(ep))
+	meta, err := bus.GetMetaObject(cl, 1, 1)
+	if err != nil {
+		return "setup-error:" + err.Error()
+	}
+	hello, _, err := meta.MethodID("hello", "(s)")
+	if err != nil {
+		return "setup-error:" + err.Error()
+	}
+	results := make(chan error, 2*calls+2)
+	go func() { _, err := cl.Call(nil, 1, 1, hello, svString("slow")); results <- err }()
+	select {
+	case <-impl.entered:
+	case <-time.After(3 * time.Second):
+		return "setup-error:the slow call did not start"
+	}
+	for i := 1; i < calls; i++ {
+		arg := fmt.Sprintf("w%d", i)
+		go func() { _, err := cl.Call(nil, 1, 1, hello, svString(arg)); results <- err }()
+	}
+	time.Sleep(10 * time.Millisecond)
+	ep.Close()
+	for i := 0; i < calls; i++ {
+		select {
+		case err := <-results:
+			if err == nil {
+				return "fail:a call whose connection was closed before its answer returned no error"
+			}
+		case <-time.After(4 * time.Second):
+			return fmt.Sprintf("fail:%d of %d calls in flight when their client closed the connection have no outcome", calls-i, calls)
+		}
+	}
+	select {
+	case <-results:
+		return "fail:a call returned twice"
+	case <-time.After(30 * time.Millisecond):
+	}
+	return "ok"
+}
+
 func init() {
+	executors["sv.closepending"] = func(a []string) string {
+		r := svClosePending(a)
+		if r != "ok" {
+			lastFailDetail = r
+		}
+		return r
+	}
 	executors["sv.abandon"] = func(a []string) string {
 		r := svAbandon(a)
 		if r != "ok" {
@@ -586,6 +655,14 @@ func runC04(r *Rand, tier string, o *Out) {
 			o.Fail("calls after another client left in the middle of its call: "+strings.SplitN(strings.TrimPrefix(out, "fail:"), ":", 2)[0], op+" => "+out)
 		}
 		o.Count("scenario:caller-leaves-in-the-middle")
+	}
+	// a caller that closes its own end while its calls are in flight: each of them returns once
+	for _, n := range []int{1, 3, 9} {
+		op := fmt.Sprintf("sv.closepending %d", n)
+		if out := o.Do("P", op, true); out != "ok" {
+			o.Fail("calls in flight when their client closes the connection: "+strings.SplitN(strings.TrimPrefix(out, "fail:"), ":", 2)[0], op+" => "+out)
+		}
+		o.Count("scenario:caller-closes-with-calls-in-flight")
 	}
 	// calls the server forwards to an object hosted by a client, which answers late and in its own order
 	lends := [][4]int{{1, 6, 1, 1}, {4, 6, 1, 4}, {8, 5, 2, 3}, {6, 8, 3, 16}}
